@@ -42,9 +42,10 @@ def drain(u):
         frames.append((op, bytes(data)))
 
 
-def drive_unpack(chunks):
-    """-> (observation string, structured per-feed records)"""
-    u = P.Unpacker()
+def drive_unpack(chunks, u=None):
+    """-> (observation string, structured per-feed records); u: an Unpacker to go on with (default: a fresh one)"""
+    if u is None:
+        u = P.Unpacker()
     outs = []
     recs = []
     for ch in chunks:
@@ -338,3 +339,109 @@ def oracle_c05(op, fields, rec):
     if got != [bytes(w) for w in want]:
         return 'fields came back different: %r' % ([fp(x) for x in got] if got else got,)
     return None
+
+
+# ------------------------------------------------------------------------------------------------
+# probes of the real Unpacker that are judged on the implementation only (inputs too large, or calls the Coq model of one
+# stream does not have)
+# ------------------------------------------------------------------------------------------------
+def stream_roundtrip_probe(rng):
+    """C05 over a stream: frames built by the msg* builders go through ONE decoder, one of them arriving in pieces (a large
+    message spans several reads), the others whole; every frame must come out when complete and read back to its fields"""
+    n = rng.randint(3, 8)
+    built = []
+    for k in range(n):
+        op = rng.choice([1, 2, 3, 3, 3, 4, 5, 0])
+        fields = gen_fields(rng, op, big=(k == 0 or rng.random() < 0.2))
+        try:
+            fr = build(op, fields)
+        except Exception:       # a field out of range: not this probe's subject
+            continue
+        built.append((op, fields, bytes(fr)))
+    if len(built) < 2:
+        return None
+    split = rng.randrange(len(built) - 1)            # not the last one: something must follow the frame that was split
+    chunks = []
+    for k, (op, fields, fr) in enumerate(built):
+        if k == split and len(fr) > 6:
+            cuts = sorted(set(rng.randrange(1, len(fr)) for _ in range(rng.choice([1, 1, 2, 3]))))
+            prev = 0
+            for c in cuts + [len(fr)]:
+                chunks.append(fr[prev:c])
+                prev = c
+        else:
+            chunks.append(fr)
+    obs, recs = drive_unpack(chunks)
+    bad = oracle_c06([fr for _, _, fr in built], b'', chunks, recs)
+    if bad:
+        return 'stream of %d built frames, frame %d arriving in pieces: %s' % (len(built), split, bad)
+    got = [f for rec in recs for f in rec['frames']]
+    for (op, fields, fr), (gop, body) in zip(built, got):
+        try:
+            back = read(op, body)
+        except Exception as e:  # noqa
+            return 'frame built by the builder for opcode %d does not read back: %s' % (op, type(e).__name__)
+        want = list(fields)
+        if op == 2:
+            import hashlib
+            want = [fields[1], hashlib.sha1(bytes(fields[0]) + tobytes(fields[2])).digest()]
+        if gop != op or back != [tobytes(w) for w in want]:
+            return 'fields came back different through the stream decoder (opcode %d)' % op
+    return None
+
+
+def giant_chunk_probe(rng):
+    """C06 for reads larger than any frame: a well-formed stream of 2-3.5 MB fed as 1, 2 or 3 chunks"""
+    frames = []
+    total = 0
+    target = rng.randint(2200000, 3500000)
+    while total < target:
+        if rng.random() < 0.6:
+            payload = bytes([rng.randrange(256)]) * rng.choice([P.MAXBUF - 20, 700000, 300000, 1000000])
+            fr = bytes(P.msgpublish('i', 'c', payload))
+        else:
+            fr = bytes(P.msgpublish('id', 'ch', bytes(rng.randrange(256) for _ in range(rng.randint(0, 40)))))
+        frames.append(fr)
+        total += len(fr)
+    data = b''.join(frames)
+    k = rng.choice([1, 2, 3])
+    cuts = sorted(rng.randrange(1, len(data)) for _ in range(k - 1))
+    chunks = [data[a:b] for a, b in zip([0] + cuts, cuts + [len(data)])]
+    obs, recs = drive_unpack(chunks)
+    bad = oracle_c06(frames, b'', chunks, recs)
+    return ('%d-byte well-formed stream fed as %d chunk(s) of %s bytes: %s' % (len(data), k, [len(c) for c in chunks], bad)) if bad else None
+
+
+def reset_probe(rng):
+    """C07 across reset(): a decoder that is reset (as the blocking Client does on every reconnect) at any point of a
+    stream - also right after a complete, valid header whose body has not arrived - must treat the next stream as a fresh
+    decoder does: same frames, same rejections, same buffer"""
+    first = gen_frame(rng, big=rng.random() < 0.3)[2]
+    cut = rng.choice([5, 5, 6, len(first) - 1, rng.randrange(1, len(first)), 3]) if len(first) > 6 else rng.randrange(0, len(first) + 1)
+    u = P.Unpacker()
+    pre = [gen_frame(rng)[2] for _ in range(rng.randint(0, 2))]
+    u.feed(b''.join(pre) + first[:cut])
+    drain(u)
+    u.reset()
+    # the second stream: well-formed frames, or a header from the boundary lattice
+    if rng.random() < 0.5:
+        ml, op = rng.choice(list(header_lattice()))
+        second = struct.pack('!iB', ml, op) + bytes(rng.randrange(256) for _ in range(rng.randint(0, 12)))
+    else:
+        second = b''.join(gen_frame(rng)[2] for _ in range(rng.randint(1, 3)))
+    chunks = cut_stream(rng, second)
+    obs, recs = drive_unpack(chunks, u)
+    bad = oracle_c07(chunks, recs)
+    if bad:
+        return 'after reset() %d bytes into a %d-byte frame: %s' % (cut, len(first), bad)
+    obs2, _ = drive_unpack(chunks)
+    if obs != obs2:
+        return 'after reset() %d bytes into a %d-byte frame the decoder behaves differently from a fresh one' % (cut, len(first))
+    return None
+
+
+def cut_stream(rng, data):
+    if len(data) < 2 or rng.random() < 0.3:
+        return [data]
+    cuts = sorted(set(rng.randrange(1, len(data)) for _ in range(rng.randint(1, 3))))
+    return [data[a:b] for a, b in zip([0] + cuts, cuts + [len(data)])]
